@@ -12,11 +12,16 @@ from .common import Disagreement, drive, q, qs, parse_qs, ROOT
 PROP_MODULE = 'PbVerif.Props.C17'
 RULE = ('cases = (optimizer, wrapped method, options, interface (class/functional), x ordering (sorted/rotated/shuffled)); each output '
         'is recomposed from direct calls of the real wrapped method with the reported weights/orders/parameters and must agree; the '
-        'plans (sections, padding, roll-and-slice, first minimum, edge constraints) are diffed with the Lean planners; non-trivial = '
+        'plans (sections, padding, roll-and-slice, first minimum, edge constraints) are diffed with the Lean planners; collab_pls (1-D and 2-D, 1-4 data '
+        'sets, user weights/tol in method_kwargs, error precedence): the Lean plan is executed on the real wrapped method, compared call by call with '
+        'the recorded calls of the real collab_pls (data, keyword names in order, values bit-exact) and its Lean semantics is run with the recorded '
+        'fits as oracle; non-trivial = '
         'non-default option or unsorted x; distinct by canonical tuple')
 ASSUMPTIONS = [
     'the wrapped method is a black box (recomposition feeds it the same arrays, so equality is expected to rounding 1e-9)',
     'np.linspace(..., dtype=intp) truncation equals exact floor on the generated integer regions',
+    'np.mean(rows, axis=0) adds the rows in order and divides by their number (checked bit-exactly on every average_dataset=False case)',
+    'method.lower() is modelled for ASCII names (String.toLower)',
 ]
 TOL = 1e-9
 
@@ -93,57 +98,15 @@ def correspond(ctx):
         dis.append(Disagreement(stage, sig, detail, meta, True))
 
     # ------------------------------------------------------------------ collab_pls
-    methods = COLLAB if ctx.thorough else [COLLAB[i] for i in sorted(rng.choice(len(COLLAB), 9, replace=False))] + ['aspls', 'fabc', 'brpls']
-    for method in dict.fromkeys(methods):
-        for avg in (True, False):
-            for iface in ('class', 'func'):
-                okind = orders[int(rng.integers(0, 3))] if iface == 'class' else ['rotated', 'shuffled'][int(rng.integers(0, 2))]
-                xs, ds = data(rng, n, 3)
-                perm = order_of(rng, n, okind)
-                x, dset = xs[perm], ds[:, perm]
-                mk = kw_for(method, n)
-                call = caller(iface, module, x)
-                meta = {'optimizer': 'collab_pls', 'method': method, 'average_dataset': avg, 'iface': iface, 'order': okind,
-                        'x': x.tolist(), 'data': dset.tolist(), 'method_kwargs': mk}
-                mname = method if rng.random() < 0.7 else method.upper()   # any letter case
-                try:
-                    b, p = call('collab_pls', dset, average_dataset=avg, method=mname, method_kwargs=dict(mk))
-                except Exception as e:
-                    ctx.count('collab:raises:' + type(e).__name__)
-                    report('c17.collab', f'collab:{method}:raises', f'collab_pls({mname}) raised {type(e).__name__}: {e}', meta)
-                    continue
-                ctx.case(('collab', method, avg, iface, okind, mname == method), nontrivial=True,
-                         sample={'optimizer': 'collab_pls', 'method': mname, 'average_dataset': avg, 'interface': iface, 'x': okind}
-                         if len(ctx.samples) < 2 else None)
-                ctx.count('collab_pls')
-                kws = dict(mk, weights=p['average_weights'])
-                alpha_family = method in ('aspls', 'pspline_aspls')
-                if alpha_family:
-                    if 'average_alpha' not in p:
-                        report('c17.collab', f'collab:{method}:alpha', f'collab_pls({mname}): average_alpha is not reported', meta)
-                        continue
-                    kws['alpha'] = p['average_alpha']
-                if method not in ('mpls', 'pspline_mpls', 'fabc'):
-                    kws['tol'] = np.inf
-                if method in ('brpls', 'pspline_brpls'):
-                    kws['tol_2'] = np.inf
-                if method == 'fabc':
-                    kws['weights_as_mask'] = True
-                direct = caller('class', module, x)
-                for i in range(len(dset)):
-                    want = direct(method, dset[i], **kws)[0]
-                    if not close(b[i], want):
-                        report('c17.collab', f'collab:{method}', f'collab_pls({mname}, average_dataset={avg}, {iface}, x {okind}): baseline {i} is not the '
-                               f'single-pass {method} fit with the reported average weights (max diff {float(np.max(np.abs(b[i] - want))):.3g})', meta)
-                        break
-                # the reported average weights
-                if avg:
-                    wexp = direct(method, dset.mean(axis=0), **mk)[1]['weights']
-                else:
-                    wexp = np.mean([direct(method, e, **mk)[1]['weights'] for e in dset], axis=0)
-                if not close(p['average_weights'], wexp):
-                    report('c17.collab', f'collab:{method}:weights', f'collab_pls({mname}, average_dataset={avg}): average_weights are not the '
-                           f'{"weights of the fit of the mean data" if avg else "mean of the individual weights"}', meta)
+    # the Lean planner (Model/Collab.lean) says which calls of the wrapped method are made; the plan is (1) executed with direct calls
+    # of the real wrapped method and compared with the output of the real collab_pls, (2) compared call by call with the calls the real
+    # collab_pls makes (a recorder is put around the wrapped method), (3) its Lean semantics (runCollab) is run with the recorded fits as
+    # the oracle and must predict the recorded arguments
+    cases = collab_cases(ctx, rng, module, n, orders)
+    plans = drive([c['line'] for c in cases])
+    ctx.traces += len(cases)
+    for c, r in zip(cases, plans):
+        collab_check(ctx, c, parse_plan(r), module, report, dis, lines, exp, metas)
     # ------------------------------------------------------------------ adaptive_minmax
     for method in ('modpoly', 'imodpoly'):
         for po in (None, 2, (1, 3)):
@@ -305,6 +268,15 @@ def correspond(ctx):
                 # a difference from the planner is a model-level disagreement
                 dis.append(Disagreement('c17.model', f'model:{kind}', f'{meta.get("optimizer")}: {kind} differs from the Lean planner',
                                         {k: v for k, v in meta.items() if k not in ('x', 'data')}, False))
+        elif kind == 'collabrun':
+            msg = collabrun_compare(r, e)
+            if msg:
+                dis.append(Disagreement('c17.model', 'model:collabrun', f'collab_pls({meta["method"]}, average_dataset={meta["average_dataset"]}'
+                                        f'{", 2-D" if meta.get("two_d") else ""}): {msg}', {k: v for k, v in meta.items() if k not in ('x', 'z', 'data')}, False))
+        elif kind == 'mean':
+            pred = np.array([float(v) for v in parse_qs(r)])
+            if not close(e, pred, 1e-14):
+                dis.append(Disagreement('c17.model', 'model:mean', 'np.mean(rows, axis=0) differs from the exact mean of the Lean model', {}, False))
         elif kind == 'plan':
             xs, ys, xfit, yfit = e
             secs, mask = r.split('|')
@@ -315,6 +287,318 @@ def correspond(ctx):
             if len(xv) != len(xfit) or not close(np.array(xv)[o], xfit, 1e-12) or not close(np.array(yv)[o], yfit, 1e-12):
                 dis.append(Disagreement('c17.model', 'model:plan', f'custom_bc x_fit/y_fit differ from the Lean section plan for {meta}', meta, False))
     return dis
+
+
+# ---------------------------------------------------------------------------------------------------------------- collab_pls helpers
+COLLAB2D = ['asls', 'iasls', 'airpls', 'arpls', 'drpls', 'iarpls', 'aspls', 'psalsa', 'brpls', 'lsrpls', 'pspline_asls', 'pspline_airpls',
+            'pspline_arpls', 'pspline_brpls', 'mixture_model', 'irsqr']
+
+
+def kw2d_for(method):
+    kw = {}
+    if 'pspline' in method or method in ('mixture_model', 'irsqr'):
+        kw['num_knots'] = 6
+    else:
+        kw['lam'] = 1e2
+    return kw
+
+
+def data2d(rng, m, n, k):
+    x, z = np.linspace(0, 1, m), np.linspace(0, 1, n)
+    X, Z = np.meshgrid(x, z, indexing='ij')
+    out = [3 + 2 * X + Z + (4 + j) * np.exp(-((X - 0.4) ** 2 + (Z - 0.5 - 0.05 * j) ** 2) / 0.02) + rng.normal(0, 0.05, (m, n)) for j in range(k)]
+    return x * 50 + 1, z * 20 + 2, np.array(out)
+
+
+def seq_mean(rows):
+    """np.mean(rows, axis=0) as NumPy evaluates it: the rows are added in order, then divided by their number (bit-exact)"""
+    acc = np.array(rows[0], dtype=float, copy=True)
+    for r in rows[1:]:
+        acc = acc + r
+    return acc / len(rows)
+
+
+def parse_plan(r):
+    parts = r.split('#')
+    if parts[0] == 'error':
+        return {'error': parts[1]}
+    calls = []
+    for c in ([] if parts[1] == '-' else parts[1].split(';')):
+        d, kw = c.split('|')
+        calls.append((d, [] if kw == '-' else [tuple(t.split('=', 1)) for t in kw.split(',')]))
+    return {'calls': calls, 'results': [int(t) for t in parts[2].split(',')] if parts[2] != '-' else [], 'avg_weights': parts[3],
+            'avg_alpha': None if parts[4] == 'none' else parts[4]}
+
+
+def resolve(val, hist, user):
+    """the value of a symbolic keyword value of the plan; hist = [(baseline, params)] of the fits made so far"""
+    if val.startswith('u:'):
+        return user[val[2:]]
+    if val == 'inf':
+        return np.inf
+    if val == 'true':
+        return True
+    kind, arg = val.split(':')
+    key = 'weights' if kind in ('fw', 'mw') else 'alpha'
+    if kind in ('fw', 'fa'):
+        return hist[int(arg)][1][key]
+    return seq_mean([hist[int(t)][1][key] for t in arg.split('+')])
+
+
+def resolve_data(d, dset):
+    return seq_mean(list(dset)) if d == 'mean' else dset[int(d[1:])]
+
+
+class Recorder:
+    """records every call of one public method (the function stored on its defining class, i.e. what `_get_function` hands to the
+    optimizer) while the real optimizer runs"""
+
+    def __init__(self, klass, name):
+        self.owner = next(c for c in klass.__mro__ if name in vars(c))
+        self.name = name
+        self.calls = []
+
+    def __enter__(self):
+        import functools
+        orig = self.orig = vars(self.owner)[self.name]
+        rec = self.calls
+
+        @functools.wraps(orig)
+        def spy(obj, data, *args, **kwargs):
+            entry = {'data': np.array(data, copy=True), 'nargs': len(args), 'keys': list(kwargs),
+                     'kw': {k: (np.array(v, copy=True) if isinstance(v, np.ndarray) else v) for k, v in kwargs.items()}}
+            rec.append(entry)
+            out = orig(obj, data, *args, **kwargs)
+            entry['out'] = (np.array(out[0], copy=True), {k: np.array(v, copy=True) for k, v in out[1].items() if k in ('weights', 'alpha')})
+            return out
+        setattr(self.owner, self.name, spy)
+        return self
+
+    def __exit__(self, *exc):
+        setattr(self.owner, self.name, self.orig)
+        return False
+
+
+def collab_cases(ctx, rng, module, n, orders):
+    cases = []
+
+    def add(**c):
+        user = c['mk']
+        c['line'] = (f'c17.collabplan {int(c["two_d"])} {int(c.get("known", True))} {np.ndim(c["dset"])} {c["mname"]} {len(c["dset"])} '
+                     f'{int(c["avg"])} {",".join(user) if user else "-"}')
+        cases.append(c)
+
+    methods = COLLAB if ctx.thorough else [COLLAB[i] for i in sorted(rng.choice(len(COLLAB), 9, replace=False))] + ['aspls', 'fabc', 'brpls', 'mpls']
+    for method in dict.fromkeys(methods):
+        for avg in (True, False):
+            for iface in ('class', 'func'):
+                okind = orders[int(rng.integers(0, 3))] if iface == 'class' else ['rotated', 'shuffled'][int(rng.integers(0, 2))]
+                k = int(rng.choice([1, 2, 3, 3, 4]))
+                xs, ds = data(rng, n, max(k, 2))
+                ds = ds[:k]
+                perm = order_of(rng, n, okind)
+                x, dset = xs[perm], ds[:, perm]
+                mk = kw_for(method, n)
+                if rng.random() < 0.35 and method not in ('mpls', 'pspline_mpls', 'fabc'):
+                    mk['weights'] = np.round(rng.uniform(0.2, 1, n) * 32) / 32      # the user's own starting weights: used by the first pass only
+                if rng.random() < 0.3 and method not in ('mpls', 'pspline_mpls', 'fabc'):
+                    mk['tol'] = 1e-2                                               # a user's tol: honoured in the first pass, overridden in the final fits
+                mname = method if rng.random() < 0.7 else (method.upper() if rng.random() < 0.5 else method.title())   # any letter case
+                add(two_d=False, method=method, mname=mname, avg=avg, iface=iface, order=okind, x=x, z=None, dset=dset, mk=mk)
+    m2 = COLLAB2D if ctx.thorough else [COLLAB2D[i] for i in sorted(rng.choice(len(COLLAB2D), 3, replace=False))] + ['aspls', 'pspline_brpls']
+    for method in dict.fromkeys(m2):
+        for avg in (True, False):
+            k = int(rng.choice([1, 2, 3]))
+            mm, nn = (8, 7) if 'pspline' in method or method in ('mixture_model', 'irsqr') else (12, 11)   # default num_eigens is (10, 10)
+            x, z, dset = data2d(rng, mm, nn, k)
+            if rng.random() < 0.5:
+                px, pz = rng.permutation(mm), rng.permutation(nn)
+                x, z, dset = x[px], z[pz], dset[:, px][:, :, pz]
+            add(two_d=True, method=method, mname=method if rng.random() < 0.7 else method.upper(), avg=avg, iface='class', order='-', x=x, z=z,
+                dset=dset, mk=kw2d_for(method))
+    # what is raised before any fit
+    xs, ds = data(rng, n, 2)
+    add(two_d=False, method='nope', mname='nope', avg=True, iface='class', order='sorted', x=xs, z=None, dset=ds, mk={}, known=False)
+    add(two_d=False, method='nope', mname='Nope', avg=False, iface='class', order='sorted', x=xs, z=None, dset=ds[0], mk={'x_data': xs}, known=False)
+    add(two_d=False, method='asls', mname='asls', avg=True, iface='class', order='sorted', x=xs, z=None, dset=ds, mk={'lam': 1e3, 'x_data': xs})
+    add(two_d=False, method='asls', mname='ASLS', avg=False, iface='class', order='sorted', x=xs, z=None, dset=ds[0], mk={'x_data': xs})
+    add(two_d=False, method='asls', mname='asls', avg=True, iface='class', order='sorted', x=xs, z=None, dset=ds[0], mk={})
+    add(two_d=False, method='arpls', mname='arpls', avg=False, iface='class', order='sorted', x=xs, z=None, dset=ds[None], mk={})
+    x2, z2, d2 = data2d(rng, 7, 6, 2)
+    add(two_d=True, method='asls', mname='asls', avg=True, iface='class', order='-', x=x2, z=z2, dset=d2[0], mk={})
+    add(two_d=True, method='fabc', mname='fabc', avg=True, iface='class', order='-', x=x2, z=z2, dset=d2, mk={}, known=False)
+    add(two_d=True, method='asls', mname='asls', avg=False, iface='class', order='-', x=x2, z=z2, dset=d2, mk={'x_data': x2})
+    return cases
+
+
+def collab_objects(c, module):
+    """(call of the real collab_pls, fresh direct fitter, class that owns the wrapped method)"""
+    from pybaselines import Baseline, Baseline2D
+    if c['two_d']:
+        real = lambda **kw: Baseline2D(c['x'], c['z']).collab_pls(c['dset'], **kw)
+        fitter = Baseline2D(c['x'], c['z'])
+        klass = Baseline2D
+    else:
+        call = caller(c['iface'], module, c['x'])
+        real = lambda **kw: call('collab_pls', c['dset'], **kw)
+        fitter = Baseline(c['x'])
+        klass = Baseline
+    return real, fitter, klass
+
+
+def same(a, b):
+    a, b = np.asarray(a), np.asarray(b)
+    return a.shape == b.shape and bool(np.array_equal(a, b, equal_nan=True))
+
+
+def collab_check(ctx, c, plan, module, report, dis, lines, exp, metas):
+    method, mname, avg, mk, dset = c['method'], c['mname'], c['avg'], c['mk'], c['dset']
+    meta = {'optimizer': 'collab_pls', 'method': method, 'mname': mname, 'average_dataset': avg, 'iface': c['iface'], 'order': c['order'], 'two_d': c['two_d'],
+            'x': c['x'].tolist(), 'z': None if c['z'] is None else c['z'].tolist(), 'data': dset.tolist(),
+            'method_kwargs': {k: (v.tolist() if isinstance(v, np.ndarray) else v) for k, v in mk.items()}}
+    what = f'collab_pls({mname}, average_dataset={avg}, {"2-D" if c["two_d"] else c["iface"]}, x {c["order"]}, {len(dset)} sets, kwargs {sorted(mk)})'
+    real, fitter, klass = collab_objects(c, module)
+    rec = None
+    try:
+        owner_has = any(method in vars(k) for k in klass.__mro__)
+        if owner_has:
+            with Recorder(klass, method) as rec:
+                b, p = real(average_dataset=avg, method=mname, method_kwargs=dict(mk))
+        else:
+            b, p = real(average_dataset=avg, method=mname, method_kwargs=dict(mk))
+        raised = None
+    except Exception as e:
+        raised = e
+    ctx.case(('collab', c['two_d'], method, avg, c['iface'], c['order'], mname == method, len(dset), tuple(sorted(mk))), nontrivial=True,
+             sample={'optimizer': 'collab_pls', 'method': mname, 'average_dataset': avg, 'interface': c['iface'], 'x': c['order'], 'sets': len(dset)}
+             if len(ctx.samples) < 2 else None)
+    ctx.count('collab_pls' + (':2d' if c['two_d'] else '') + (':raises' if raised is not None else ''))
+    if 'error' in plan:
+        if raised is None or type(raised).__name__ != plan['error']:
+            dis.append(Disagreement('c17.model', f'model:collab:error:{plan["error"]}', f'{what}: the Lean planner says {plan["error"]} is raised before any fit, '
+                                    f'the real call {"returned" if raised is None else "raised " + type(raised).__name__}', meta, False))
+        return
+    # ---- (1) execute the plan with direct calls of the real wrapped method on one fresh fitter
+    hist, direct_err = [], None
+    try:
+        for d, kw in plan['calls']:
+            hist.append(getattr(fitter, method)(resolve_data(d, dset), **{k: resolve(v, hist, mk) for k, v in kw}))
+    except Exception as e:
+        direct_err = e
+    if raised is not None or direct_err is not None:
+        if raised is None or direct_err is None or type(raised) is not type(direct_err):
+            report('c17.collab', f'collab:{method}:raises', f'{what}: the real call {"returned" if raised is None else "raised " + type(raised).__name__ + ": " + str(raised)[:80]}'
+                   f', the planned direct calls {"returned" if direct_err is None else "raised " + type(direct_err).__name__ + ": " + str(direct_err)[:80]}', meta)
+        else:
+            ctx.count('collab:plan-and-real-both-raise:' + type(raised).__name__)
+        return
+    fails = []
+    if np.shape(b) != np.shape(dset):
+        fails.append(f'baselines have shape {np.shape(b)}, the data set {np.shape(dset)}')
+    else:
+        for i, ci in enumerate(plan['results']):
+            if not close(b[i], hist[ci][0]):
+                fails.append(f'baseline {i} is not the single-pass {method} fit of data set {i} with the reported average weights '
+                             f'(max diff {float(np.max(np.abs(b[i] - hist[ci][0]))):.3g})')
+                break
+            if not same(b[i], hist[ci][0]):
+                ctx.count('collab:baseline-not-bit-exact')
+    if not close(p['average_weights'], resolve(plan['avg_weights'], hist, mk)):
+        fails.append('average_weights are not the ' + ('weights of the fit of the mean data' if avg else 'mean of the individual weights'))
+    if (plan['avg_alpha'] is None) != ('average_alpha' not in p):
+        fails.append('average_alpha is ' + ('not reported' if 'average_alpha' not in p else 'reported for a method without alpha'))
+    elif plan['avg_alpha'] is not None and not close(p['average_alpha'], resolve(plan['avg_alpha'], hist, mk)):
+        fails.append('average_alpha is not the ' + ('alpha of the fit of the mean data' if avg else 'mean of the individual alpha'))
+    mp = p['method_params']
+    want_keys = list(hist[plan['results'][0]][1]) if plan['results'] else []
+    if list(mp) != want_keys:
+        fails.append(f'method_params has keys {list(mp)}, the wrapped method returns {want_keys}')
+    else:
+        for key in want_keys:
+            if len(mp[key]) != len(plan['results']) or not all(close(mp[key][i], hist[ci][1][key]) for i, ci in enumerate(plan['results'])
+                                                               if np.ndim(hist[ci][1][key]) > 0 and np.asarray(hist[ci][1][key]).dtype.kind == 'f'):
+                fails.append(f'method_params[{key}] is not the list of that parameter of the {len(plan["results"])} final fits in order')
+    for fl in fails:
+        report('c17.collab', f'collab:{method}', f'{what}: {fl}', meta)
+    # ---- (2) the calls the real collab_pls made vs the plan
+    if rec is None:
+        return
+    tr = rec.calls
+    if len(tr) != len(plan['calls']):
+        dis.append(Disagreement('c17.model', 'model:collab:ncalls', f'{what}: {len(tr)} calls of the wrapped method, the Lean planner says {len(plan["calls"])}', meta, False))
+        return
+    outs = [t['out'] for t in tr]
+    for j, (t, (d, kw)) in enumerate(zip(tr, plan['calls'])):
+        bad = None
+        if t['nargs'] != 0:
+            bad = 'extra positional arguments'
+        elif not same(t['data'], resolve_data(d, dset)):
+            bad = f'data is not {"the mean data set" if d == "mean" else "data set " + d[1:]}'
+        elif t['keys'] != [k for k, _ in kw]:
+            bad = f'keyword arguments {t["keys"]}, the planner says {[k for k, _ in kw]}'
+        else:
+            for k_, v in kw:
+                got, want_v = t['kw'][k_], resolve(v, outs, mk)
+                ok = (got is True) if v == 'true' else (isinstance(got, float) and got == np.inf) if v == 'inf' else \
+                    same(got, want_v) if isinstance(want_v, np.ndarray) else got == want_v
+                if not ok:
+                    bad = f'keyword {k_} is not {v}'
+                    break
+        if bad:
+            dis.append(Disagreement('c17.model', 'model:collab:trace', f'{what}: call {j} of the wrapped method: {bad}', meta, False))
+            return
+    ctx.count('collab:trace-checked')
+    # ---- (3) the Lean semantics of the plan with the recorded fits as the oracle predicts the recorded arguments (exact rationals)
+    if len(dset) and dset[0].size <= 64 or ctx.thorough or ctx.rng.random() < 0.5:
+        flat = [np.ravel(e) for e in dset]
+        fits = ';'.join('~'.join(qs(np.ravel(v)) for v in (o[0], o[1]['weights'], o[1].get('alpha', np.zeros(0)))) for o in outs)
+        lines.append(f'c17.collabrun {int(c["two_d"])} {mname} {int(avg)} {",".join(mk) if mk else "-"} {";".join(qs(e) for e in flat)} {fits}')
+        exp.append((tr, b, p, mk))
+        metas.append(('collabrun', meta))
+    if avg is False and len(dset) > 1 and ctx.rng.random() < 0.5:
+        rows = [o[1]['weights'].ravel() for o in outs[:len(dset)]]
+        lines.append('c17.mean ' + ';'.join(qs(r) for r in rows))
+        exp.append(np.mean(np.array(rows), axis=0))
+        metas.append(('mean', meta))
+
+
+def collabrun_compare(r, e):
+    """the trace predicted by Collab.runCollab (oracle = the recorded fits) vs the recorded calls of the real collab_pls"""
+    tr, b, p, mk = e
+    trace_s, base_s, avgw_s, avga_s = r.split('#')
+    recs = [] if trace_s == '-' else trace_s.split(';')
+    if len(recs) != len(tr):
+        return f'{len(tr)} calls were made, the model makes {len(recs)}'
+
+    def arr(s):
+        return np.array([float(v) for v in parse_qs(s)])
+
+    def arg_ok(s, got, key):
+        if s.startswith('arr:'):
+            return isinstance(got, np.ndarray) and close(np.ravel(got), arr(s[4:]), 1e-14)
+        if s == 'inf':
+            return isinstance(got, float) and got == np.inf
+        if s == 'true':
+            return got is True
+        return s == 'u:' + key and (same(got, mk[key]) if isinstance(mk[key], np.ndarray) else got == mk[key])
+    for j, (t, rs) in enumerate(zip(tr, recs)):
+        d_s, kw_s = rs.split('~')
+        if not close(np.ravel(t['data']), arr(d_s), 1e-14):
+            return f'call {j}: the data argument differs from the model'
+        kws = [] if kw_s == '-' else [tuple(x.split('=', 1)) for x in kw_s.split('&')]
+        if [k for k, _ in kws] != t['keys']:
+            return f'call {j}: keyword arguments {t["keys"]}, the model says {[k for k, _ in kws]}'
+        for k_, v in kws:
+            if not arg_ok(v, t['kw'][k_], k_):
+                return f'call {j}: keyword {k_} differs from the model ({v[:12]}…)'
+    mb = np.array([[float(v) for v in parse_qs(row)] for row in base_s.split(';')]) if base_s != '-' else np.zeros((0,))
+    if not same(mb.reshape(np.shape(b)) if mb.size == np.size(b) else mb, b):
+        return 'the returned baselines are not the baselines of the fits the model reports'
+    if not close(np.ravel(p['average_weights']), arr(avgw_s[4:]), 1e-14):
+        return 'average_weights differ from the model'
+    if (avga_s == 'none') != ('average_alpha' not in p) or (avga_s != 'none' and not close(np.ravel(p['average_alpha']), arr(avga_s[4:]), 1e-14)):
+        return 'average_alpha differs from the model'
+    return None
 
 
 def reference_extended(module, x, y, method, side, ws, mk, poly_like, optimal):
@@ -370,13 +654,17 @@ def replay(ctx, data):
         call = caller(r['iface'], module, x)
         direct = caller('class', module, x)
         if r['optimizer'] == 'collab_pls':
-            mk = r['method_kwargs']
+            mk = {k: (np.array(v) if isinstance(v, list) else v) for k, v in r['method_kwargs'].items()}
             method = r['method']
-            b, p = call('collab_pls', d, average_dataset=r['average_dataset'], method=method, method_kwargs=dict(mk))
+            if r.get('two_d'):
+                from pybaselines import Baseline2D
+                z = np.array(r['z'])
+                call = direct = lambda name, y, **kw: getattr(Baseline2D(x, z), name)(y, **kw)
+            b, p = call('collab_pls', d, average_dataset=r['average_dataset'], method=r.get('mname', method), method_kwargs=dict(mk))
             kws = dict(mk, weights=p['average_weights'])
             if method in ('aspls', 'pspline_aspls'):
                 kws['alpha'] = p['average_alpha']
-            if method not in ('mpls', 'pspline_mpls', 'fabc'):
+            if r.get('two_d') or method not in ('mpls', 'pspline_mpls', 'fabc'):
                 kws['tol'] = np.inf
             if method in ('brpls', 'pspline_brpls'):
                 kws['tol_2'] = np.inf
